@@ -1,6 +1,6 @@
 """C10: drives batches of concurrent calls, one of them faulty, over a real Broker pair (loopback transports,
 virtual clock); records the outcome of every call, the bytes each side wrote, and the state of the connection."""
-import re
+import gc, re
 from twisted.python import failure, reflect
 from harness import implenv as E
 from harness.implenv import quiet, Referenceable
@@ -248,6 +248,20 @@ class Tap:
 def run_batch(specs, opts):
     """issue all calls of `specs` back to back (before any byte is delivered: the eventual-send queue holds the
     loopback writes), then let everything settle, then one more call.  -> dict(results, later, disconnected, ...)"""
+    # The cyclic garbage collector must not run while a batch is driven: task.Clock.callLater sorts its list of calls
+    # with a Python key function, a collection triggered inside that sort can finalize RemoteReferences of an earlier
+    # batch, whose trackers call eventually() -> Clock.callLater -> "ValueError: list modified during sort" inside whatever
+    # foolscap code happened to call eventually().  (An artefact of the virtual clock, not of foolscap: a real reactor
+    # keeps a heap.)  Collect between batches instead, before the clock and the eventual queue are reset.
+    gc.collect()
+    gc.disable()
+    try:
+        return _run_batch(specs, opts)
+    finally:
+        gc.enable()
+
+
+def _run_batch(specs, opts):
     E.reset_clock()
     del EXECUTED[:]
     n_err0 = len(E.logged_errors)
